@@ -20,8 +20,8 @@ import os
 
 from vlib import core
 
-NSLICES = 16
-OUTER_NSLICES = 4   # thorough: roots other than Type get every kind directly below them + 1/4 of the two-level chains
+NSLICES = 48
+OUTER_NSLICES = 6   # thorough: roots other than Type get every kind directly below them + 1/6 of the two-level chains
 OPS = ["SetField", "SetElem", "AppendWithinCap", "MapInsert", "MapDelete", "SetThroughPointer"]
 REAL_CHAINS = [["struct", k] for k in ("scalar", "ref", "constant_ref", "enum", "array", "map", "struct", "disjunction",
                                        "intersection", "composable_slot")] + \
@@ -109,7 +109,7 @@ def real_shapes(ctx):
         out.write(json.dumps({"root": "Schemas", "chain": ["struct", "scalar"], "fill": "saturated", "payload": "nested"}) + "\n")
         for chain in (["struct"], ["scalar"], ["ref"]):
             for fill, p in (("wellformed", "scalar"), ("wellformed", "slice"), ("wellformed", "map"), ("wellformed", "irnode"),
-                            ("saturated", "nested"), ("sparse", "slice"), ("nilled", "scalar"), ("emptied", "slice")):
+                            ("saturated", "nested"), ("sparse", "slice"), ("nilled", "scalar"), ("emptied", "slice"), ("wide", "slice"), ("zeroed", "false")):
                 out.write(json.dumps({"root": "Builder", "chain": chain, "fill": fill, "payload": p}) + "\n")
     return f
 
@@ -222,6 +222,60 @@ def selftest_binding(ctx, recs, failed):
         k for k in res if k != "good")
 
 
+def run_shapes(ctx, shapes_file, plans_file, extra):
+    """worker c18-run; a fatal crash of the worker (stack overflow, out of memory: not a recoverable panic) is attributed to
+    the shapes that were in flight (progress file), each re-run alone; reproducible crashes become findings and the rest of
+    the universe is run without them."""
+    import subprocess
+    shapes = [json.loads(x) for x in open(shapes_file)]
+    fatal = []
+    for attempt in range(4):
+        prog = os.path.join(ctx.scratch, "progress-%d.ndjson" % attempt)
+        p = subprocess.run([ctx.worker, "c18-run", "-shapes", shapes_file, "-plans", plans_file, "-progress", prog] + extra,
+                           stdout=subprocess.PIPE, stderr=subprocess.PIPE, env=ctx.goenv(), timeout=3000)
+        if p.returncode == 0:
+            return json.loads(p.stdout), fatal
+        err = p.stderr.decode(errors="replace")
+        inflight = {}
+        if os.path.exists(prog):
+            for line in open(prog):
+                try:
+                    ev = json.loads(line)
+                except ValueError:
+                    continue
+                if ev["ev"] == "start":
+                    inflight[ev["idx"]] = ev["shape"]
+                else:
+                    inflight.pop(ev["idx"], None)
+        if not inflight or not ("fatal error" in err or "panic:" in err or p.returncode < 0):
+            core.log(err[-3000:])
+            raise core.Inconclusive("worker failed (exit %d): c18-run" % p.returncode)
+        culprits = []
+        for sh in inflight.values():
+            one = os.path.join(ctx.scratch, "one-shape.ndjson")
+            open(one, "w").write(json.dumps(sh) + "\n")
+            q = subprocess.run([ctx.worker, "c18-run", "-shapes", one, "-plans", plans_file, "-par", "1", "-pairs", "0"],
+                               stdout=subprocess.PIPE, stderr=subprocess.PIPE, env=ctx.goenv(), timeout=600)
+            if q.returncode != 0:
+                qe = q.stderr.decode(errors="replace")
+                cls = "crash"
+                for line in qe.splitlines():
+                    if line.startswith("fatal error:") or line.startswith("panic:"):
+                        cls = "-".join(line.replace(":", "").split()[:4])
+                        break
+                culprits.append(sh)
+                fatal.append(sh)
+                ctx.fail("C18/%s.DeepCopy/fatal/%s" % (sh["root"], cls), qe[:300], {"shape": sh, "plan": None})
+        if not culprits:
+            raise core.Inconclusive("worker crashed (exit %d) but no shape in flight reproduces the crash alone" % p.returncode)
+        keys = {json.dumps(c, sort_keys=True) for c in culprits}
+        shapes = [x for x in shapes if json.dumps(x, sort_keys=True) not in keys]
+        with open(shapes_file, "w") as f:
+            for x in shapes:
+                f.write(json.dumps(x) + "\n")
+    raise core.Inconclusive("worker keeps crashing")
+
+
 def replay(ctx):
     rp = json.load(open(ctx.replay))
     want = rp.get("signature")
@@ -254,13 +308,16 @@ def run(ctx):
     roots = json.loads(ctx.run_worker(["c18-roots", "-repo", core.REPO]))
     if len(roots["roots"]) < 2:
         raise core.Inconclusive("reflection found %d types with a DeepCopy method" % len(roots["roots"]))
+    # Gates that fail AFTER real-code verdicts exist must not turn observed violations into "inconclusive": they are
+    # collected and only decide the outcome when no unlisted violation was observed.
+    problems = []
     # every DeepCopy method DECLARED in the current source tree (go/parser) must be one reflection reached
     declared = {(d["pkg"], d["recv"]) for d in roots["declared"] if d["name"] == "DeepCopy"}
     unreached = sorted("%s.%s" % d for d in declared if d[0] != "internal/ast" or d[1] not in roots["roots"])
     if unreached or len(declared) != len(roots["roots"]):
-        raise core.Inconclusive("DeepCopy methods declared in the source tree but not reached by reflection from ast.Schemas / "
-                                "ast.Builders (extend the seeds of c18Roots): %s (declared %d, reached %d)" % (
-                                    unreached, len(declared), len(roots["roots"])))
+        problems.append("DeepCopy methods declared in the source tree but not reached by reflection from ast.Schemas / "
+                        "ast.Builders (extend the seeds of c18Roots): %s (declared %d, reached %d)" % (
+                            unreached, len(declared), len(roots["roots"])))
     cov["copy_helpers_declared"] = sorted("%s.%s" % (d["pkg"], d["name"]) for d in roots["declared"] if d["name"] != "DeepCopy")
 
     # (A) design level + mutation plans; shape universe
@@ -271,37 +328,55 @@ def run(ctx):
 
     # (B) every shape x plan on the real DeepCopy methods
     trace = os.path.join(ctx.scratch, "trace.ndjson")
-    args = ["c18-run", "-shapes", shapes_file, "-plans", plans_file, "-seed", str(ctx.seed), "-trace", trace,
-            "-trace-max", "1200" if quick else "6000", "-trace-cells", "150",
-            "-pairs", "2" if quick else "3"]
-    s = json.loads(ctx.run_worker(args, timeout=3000))
+    extra = ["-seed", str(ctx.seed), "-trace", trace, "-trace-max", "1200" if quick else "6000", "-trace-cells", "150",
+             "-pairs", "2"]
+    s, fatal_shapes = run_shapes(ctx, shapes_file, plans_file, extra)
     st = s["stats"]
     collect(ctx, s, lambda ex: {"shape": ex["shape"], "plan": ex.get("plan")})
+    for h in s.get("harness_errors") or []:
+        problems.append("harness: " + h)
 
     # (C) the recorded real copies, judged by TLC with the operators of Heap.tla
-    r_trace, recs, failed = trace_validation(ctx, trace, cov)
-    binding = selftest_binding(ctx, recs, failed)
+    r_trace, recs, failed, binding = None, [], {}, "not run"
+    try:
+        r_trace, recs, failed = trace_validation(ctx, trace, cov)
+        binding = selftest_binding(ctx, recs, failed)
+    except core.Inconclusive as e:
+        problems.append(str(e))
 
     # real transformations instead of synthetic writes
-    rs = json.loads(ctx.run_worker(["c18-real", "-shapes", real_shapes(ctx)], timeout=1800))
-    rst = rs["stats"]
-    collect(ctx, rs, lambda ex: {"shape": ex["shape"], "real": True})
+    rs = {"stats": {}, "passes": [], "samples": [], "signatures": {}}
+    try:
+        rs = json.loads(ctx.run_worker(["c18-real", "-shapes", real_shapes(ctx)], timeout=1800))
+        collect(ctx, rs, lambda ex: {"shape": ex["shape"], "real": True})
+    except core.Inconclusive as e:
+        problems.append(str(e))
+    rst = {k: rs["stats"].get(k, 0) for k in ("schema_inputs", "process_calls", "runs_with_input_mutated", "builder_inputs",
+                                                "builder_duplicates_judged", "option_duplicates_judged", "mutations_applied_to_duplicates")}
+    rst.update({k: rs["stats"].get(k, {}) for k in ("pass_changed_its_copy", "pass_errors", "pass_panics")})
 
     # vacuity
     missing_roots = [r for r in roots["roots"] if st["shapes_per_root"].get(r, 0) == 0]
-    # AppendWithinCap only has a site where a slice of the copy has spare capacity: a copy built with exact
-    # capacities offers none (then the op is reported as not applicable, not as vacuous)
-    dead_ops = [op for op in OPS if st["sites_per_op"].get(op, 0) == 0 and op != "AppendWithinCap"]
+    # AppendWithinCap only has a site where a slice has spare capacity (the filler's originals do)
+    dead_ops = [op for op in OPS if st["sites_per_op"].get(op, 0) == 0]
     if missing_roots:
-        raise core.Inconclusive("DeepCopy methods never exercised: %s" % missing_roots)
+        problems.append("DeepCopy methods never exercised: %s" % missing_roots)
     if dead_ops:
-        raise core.Inconclusive("mutation kinds that never found a site on any copy: %s" % dead_ops)
+        problems.append("mutation kinds that never found a site on any value: %s" % dead_ops)
+    if st["recopies_judged"] == 0:
+        problems.append("no second call / copy of a copy was judged")
     effective = sorted(p for p in rs["passes"] if rst["pass_changed_its_copy"].get(p, 0) > 0)
     if len(effective) < 15 or rst["builder_duplicates_judged"] == 0 or rst["option_duplicates_judged"] == 0:
-        raise core.Inconclusive("real transformations vacuous: %d effective passes, %d/%d duplicates" % (
+        problems.append("real transformations vacuous: %d effective passes, %d/%d duplicates" % (
             len(effective), rst["builder_duplicates_judged"], rst["option_duplicates_judged"]))
+    known = {k["signature"] for k in core.load_known() if k["property"] == ctx.pid and k.get("status", "known") == "known" and "signature" in k}
+    unlisted = [f for f in ctx.failures if f["signature"] not in known]
+    if problems and not unlisted:
+        raise core.Inconclusive("; ".join(problems))
+    if problems:
+        cov["inconclusive_parts"] = problems   # reported next to the violations, which stand
 
-    tl = [r_design, r_shapes, r_trace]
+    tl = [r for r in (r_design, r_shapes, r_trace) if r]
     cov.update({
         "states": sum(r["distinct"] for r in tl),
         "transitions": sum(r["generated"] for r in tl),
@@ -318,18 +393,19 @@ def run(ctx):
                 "distinct TLC states and plans distinct op sequences; non-trivial = the plan performed at least one write on the copy",
         "deepcopy_methods": roots["roots"], "shapes_from_tlc": n_shapes, "shapes_instantiated": st["shapes"],
         "shapes_skipped_as_duplicates": st["skipped_duplicate_shapes"], "plans_core": plans["core"], "plans_rotating": len(plans["rotate"]),
-        "plans_per_shape": "the core plans + %d of the %d other revealing plans (rotating)" % (2 if quick else 3, len(plans["rotate"])),
+        "plans_per_shape": "the core plans + %d of the %d other revealing plans (rotating)" % (2, len(plans["rotate"])),
         "cells_extracted": st["cells"], "largest_heap_cells": st["max_cells"],
         "writes_on_copies_per_mutation_kind": st["sites_per_op"], "cases_per_mutation_kind": st["cases_per_op"],
         "shapes_per_root": st["shapes_per_root"], "observable_leaves_per_root": st["observable_leaves_per_root"],
         "shapes_iso_ok": st["shapes_iso_ok"], "shapes_disjoint_ok": st["shapes_disjoint_ok"],
         "cases_with_visible_mutation": st["cases_with_visible_mutation"],
+        "second_calls_and_copies_of_copies_judged": st["recopies_judged"], "shapes_with_fatal_crash": fatal_shapes,
         "real_transformations": {k: rst[k] for k in ("schema_inputs", "process_calls", "runs_with_input_mutated", "builder_inputs",
                                                       "builder_duplicates_judged", "option_duplicates_judged",
                                                       "mutations_applied_to_duplicates")},
         "effective_passes": effective, "pass_errors": rst["pass_errors"], "pass_panics_not_judged_here": rst["pass_panics"],
         "binding_selftest": binding,
-        "samples": (s["samples"] or [recs[0]])[:2] + rs["samples"][:1],
+        "samples": (s["samples"] or recs[:1] or [{"note": "no record"}])[:2] + rs["samples"][:1],
         "checker_cmd": "tlc HeapMC (MaxMut=2); tlc HeapShapes (%s); worker c18-run; tlc HeapTrace; worker c18-real" % (
             "slice %d/%d" % (ctx.seed % NSLICES, NSLICES) if quick else "all shapes"),
     })
@@ -342,8 +418,8 @@ def run(ctx):
         "every copy is taken twice from the same original; plans are executed through the original, the copy or the second copy, "
         "and after each step the two other values must be unchanged",
         "PassesTrail and VeneerTrail are compared like every other declared field",
-        "`any` payloads are instantiated as scalars, []any, map[string]any, nested combinations and ast.DisjunctionType values "
-        "(the dynamic types cog itself stores); other dynamic types are not generated",
+        "`any` payloads are instantiated as scalars (also every falsy one), []any, map[string]any, nestings of them, "
+        "ast.DisjunctionType values (which cog itself stores), typed slices/maps, a map in a map, pointers and a pointer to a pointer",
         "for the duplicate rules the fields the rules document they set (Name, the appended VeneerTrail entry) are excluded",
         "heaps larger than 150 cells are judged by the worker only (same operators, in Go); TLC judges the sampled smaller ones "
         "and both verdicts are cross-checked on every sampled record",
